@@ -23,6 +23,18 @@ CLAIMED["C16"] = dict(
   text="24 Lean theorems over the retry/classification state machine of RemoteWorker.Work/work() and the two error tables (tier2 toGRPCError, tier1 toConnectError), for arbitrary retry/time-out budgets and instantiated at the constants and tables EXTRACTED from the current source on every run: transient faults (<= maxRetries) followed by a complete attempt give success in #faults+1 attempts; fatal/deterministic failures are not retried and are invalid-argument end to end (composition of the three tables); bounded attempts, success only after a cleanly completed attempt (no silent truncation), cancellation stops; abstract file theorem (failed attempts followed by a complete one leave the fault-free files). PARTIAL: the gRPC transport, timers and the end-to-end equality of outputs are exercised (real worker against scripted streams and against the real Tier2Service.ProcessRange over bufconn) but not proved",
   note="Trusted: Lean kernel + 3 standard axioms; the go/ast extractor (harness/cmd/extract_c16) that regenerates lean/Generated/ConstsC16.lean; harness and scripted gRPC fakes; grpc-go delivers status codes unchanged and returns io.EOF only on a nil handler return; back-off sleeps are real (not shortened); see checks/C16.json assumptions",
   technique="Lean 4 theorems over an executable model of the retry machine, instantiated at constants/tables regenerated from the source by a go/ast extractor + differential correspondence against the real worker and tables")
+CLAIMED["C02"] = dict(
+  text="Lean theorems (Layer A, full): for every policy (set, set_if_not_exists, append, add/min/max over any associative combination, set_sum), every list of per-key events (writes in stable ordinal order, matching delete_prefix) and EVERY cut into consecutive segments, merging the partial states of the segments in order equals sequential application; value-type instances: int64 with wrap-around, bigint, bigdecimal addition (associativity proved), min/max. Layer B (refinement of the byte-level model Model/Store+Policy+Merge to these algebras) is in Lemmas/SquashRefine.lean as far as proved. float64 add is proved only under associativity (partial) and is a recorded known finding. Tie: sequential full store vs squashed store built from per-segment PartialKVs through wasm.Call.Do*, Save, Load, Merge, for all 22 host-admitted (policy,value type) pairs and every cut of up to 5 blocks, compared step by step with the compiled model; oracle compares typed contents on the real code",
+  note="Trusted: Lean kernel + 3 standard axioms; harness/generator; text codecs of Model/Policy.lean stand for strconv/math-big/shopspring (byte-exact for int64/bigint/bigdecimal, exercised on every case); float texts compared through IEEE bit patterns; theorem assumes limits are not hit; known finding C02/add/float64/association-order")
+CLAIMED["C12"] = dict(
+  text="23 Lean theorems for arbitrary segment size, block numbers, store lists in any order and cursor shapes: plan partition (ReadExecOut = [start,min(handoff,stop)), LinearPipeline = [handoff,stop), gate, no gap/overlap), stores built exactly up to the hand-off, hand-off on a segment boundary whenever something is back-filled (every return path characterised), hand-off independent of module order, every unit handed to a job = the range tier2 recomputes from (segment number, size), jobs cover everything below the hand-off, impossible requests are errors, forked/not-forked/final cursors. Tie: real BuildRequestDetails, BuildTier1RequestPlan, plan segmenters, ValidateRequestStartBlock and (slice T1) the unchanged Tier1Service.blocks on ~2.2M cases (quick) incl. every ordered module configuration of the small grid",
+  note="Trusted: Lean kernel + 3 standard axioms; harness/generator; cursors are opaque tokens with fromOpaque(toOpaque c)=c; resolver answers are parameters; ~12 prelude lines of tier1.blocks are replicated in the harness and tied back by slice T1 (hook service/verif_hooks_c12.go)")
+CLAIMED["C14"] = dict(
+  text="16 Lean theorems for every list of modules that passes validation (distinct names, references resolve), every output module, no bound on the graph: staging terminates (fuel 2n+2 suffices), the staged modules are exactly the ancestor closure of the output and each is in exactly one layer, every map/store-get/store-deltas/block-filter dependency is in a strictly earlier layer, layers are homogeneous (stores or non-stores) and non-empty, a store layer closes its stage, accepted iff every module has an input existing at its initial block. Tie: seeded DAGs up to 12 modules incl. 14 malformed mutation kinds through real ValidateModules + exec.NewOutputModuleGraph; layers compared as sets",
+  note="Trusted: Lean kernel + 3 standard axioms; harness/generator; yourbasic/graph (Acyclic, ShortestPaths, TopSort) modelled as specified functions (acyclicity check, reachability); order inside a layer comes from the external TopSort and is not compared")
+CLAIMED["C15"] = dict(
+  text="21 Lean theorems: for every filter expression the parser can produce (characterised by a decidable predicate, proved for all token lists), every key-to-block assignment and every block: selected by the pre-computed index iff the block's own keys satisfy the filter (both evaluators = the boolean meaning), optimizer preserves both, parser total with fuel 3n+2, skip decision pre-computed = on the fly = not holds for the index EndOfStream writes, also on blocks without index output (present / absent / being built). Tie: real lexer tokens, sqe.Parse, optimizer, RoaringBitmapsApply evaluated 3x over shared bitmaps, KeysApply, real cache.Engine index build + File.Load, exec.RunModule skip decisions, and the real Tier1 service end to end with a scripted runtime",
+  note="Trusted: Lean kernel + 3 standard axioms; harness/generator; roaring bitmaps modelled as finite sets of block numbers; the lexer regexp is re-implemented byte-wise in the model and compared with the real tokens through hook sqe/verif_hooks.go; two lines of BuildModuleExecutors (bitmap precomputation) replicated in the harness")
 NA_REASON = "check not built yet in this session (planned, see DESIGN.md §11); not a claim that the technique cannot apply"
 
 def chk(pid, d):
